@@ -35,22 +35,23 @@ theorem zero_pad_stop_eq (t c : Int) : zero_pad_stop t c = zeroPadStart t c + c 
   simp only [Int.fdiv_eq_ediv_of_nonneg _ (by decide : (0 : Int) ≤ 2)]
   try omega
 
-/-! `num_low_freqs` glue, float arithmetic included: the translated expressions are `numLow` of the object model
+/-! `num_low_freqs` glue, float arithmetic and branch conditions included (`ty` is the code of the Python TYPE of the
+configured value: the width depends on the VALUE only, for every type): the translated expressions are `numLow` of the object model
 (`Model/C06Seed.lean`), generator by generator -/
 
-theorem num_low_random_eq (cols : Nat) (p : PairCfg) (g : Gen) (hg : g = .fastmriRandom ∨ g = .cartesianRandom) :
-    num_low_random cols p.cfNum p.cfDen = numLow g cols p := by
+theorem num_low_random_eq (cols : Nat) (p : PairCfg) (ty : Int) (g : Gen) (hg : g = .fastmriRandom ∨ g = .cartesianRandom) :
+    num_low_random cols p.cfNum p.cfDen ty = numLow g cols p := by
   rcases hg with rfl | rfl <;>
   · simp only [num_low_random, numLowFraction, numLow, numLowFreqs, roundMul, Int.toNat_natCast, Int.one_mul, Int.ofNat_lt, decide_eq_true_eq]
 
-theorem num_low_equispaced_eq (cols : Nat) (p : PairCfg) (g : Gen) (hg : g = .fastmriEquispaced ∨ g = .cartesianEquispaced) :
-    num_low_equispaced cols p.cfNum p.cfDen = numLow g cols p := by
+theorem num_low_equispaced_eq (cols : Nat) (p : PairCfg) (ty : Int) (g : Gen) (hg : g = .fastmriEquispaced ∨ g = .cartesianEquispaced) :
+    num_low_equispaced cols p.cfNum p.cfDen ty = numLow g cols p := by
   rcases hg with rfl | rfl <;>
   · simp only [num_low_equispaced, numLowFraction, numLow, numLowFreqs, roundMul, Int.toNat_natCast, Int.one_mul, Int.ofNat_lt, decide_eq_true_eq]
 
 /-- Magic: raw width, sampling budget `round(num_cols / acceleration)`, cap -/
-theorem num_low_magic_eq (cols : Nat) (p : PairCfg) (g : Gen) (hg : g = .fastmriMagic ∨ g = .cartesianMagic) :
-    magic_cap (num_low_magic cols p.cfNum p.cfDen) (magic_target cols p.accNum p.accDen) = numLow g cols p := by
+theorem num_low_magic_eq (cols : Nat) (p : PairCfg) (ty ty' : Int) (g : Gen) (hg : g = .fastmriMagic ∨ g = .cartesianMagic) :
+    magic_cap (num_low_magic cols p.cfNum p.cfDen ty) (magic_target cols p.accNum p.accDen ty') = numLow g cols p := by
   rcases hg with rfl | rfl <;>
   · simp only [magic_cap, num_low_magic, numLowMagicRaw, magic_target, numLow, numLowFreqs, magicCap, roundMul, roundQuot, Int.toNat_natCast,
       Int.one_mul, gt_iff_lt, Int.ofNat_lt, decide_eq_true_eq]
@@ -67,16 +68,16 @@ theorem ctor_accepts_eq (p : PairCfg) (isInt : Bool) :
   simp only [ctor_accepts_fastmrirandom, ctor_accepts_fastmriequispaced, ctor_accepts_fastmrimagic, ctor_accepts_cartesianrandom,
     ctor_accepts_cartesianequispaced, ctor_accepts_cartesianmagic, ctorAccepts, fractionAccepted, countAccepted, and_self]
 
-theorem num_low_gaussian1d_eq (cols : Nat) (p : PairCfg) :
-    num_low_gaussian1d cols p.cfNum p.cfDen = numLow .gaussian1d cols p := by
+theorem num_low_gaussian1d_eq (cols : Nat) (p : PairCfg) (ty : Int) :
+    num_low_gaussian1d cols p.cfNum p.cfDen ty = numLow .gaussian1d cols p := by
   simp only [num_low_gaussian1d, numLow, roundMul, Int.toNat_natCast]
 
-theorem num_low_ktuniform_eq (cols : Nat) (p : PairCfg) :
-    num_low_ktuniform cols p.cfNum p.cfDen = numLow .ktUniform cols p := by
+theorem num_low_ktuniform_eq (cols : Nat) (p : PairCfg) (ty : Int) :
+    num_low_ktuniform cols p.cfNum p.cfDen ty = numLow .ktUniform cols p := by
   simp only [num_low_ktuniform, numLow, roundMul, Int.toNat_natCast]
 
-theorem num_low_ktgaussian1d_eq (cols : Nat) (p : PairCfg) :
-    num_low_ktgaussian1d cols p.cfNum p.cfDen = numLow .ktGaussian1d cols p := by
+theorem num_low_ktgaussian1d_eq (cols : Nat) (p : PairCfg) (ty : Int) :
+    num_low_ktgaussian1d cols p.cfNum p.cfDen ty = numLow .ktGaussian1d cols p := by
   simp only [num_low_ktgaussian1d, numLow, roundMul, Int.toNat_natCast]
 
 theorem magic_cap_eq (l t : Int) : magic_cap l t = magicCap l t := by
